@@ -50,7 +50,7 @@ func init() {
 	specs["C19"] = &propSpec{
 		id:    "C19",
 		level: "fault_enumeration",
-		rule: "one evaluation = one (*ir.Module).WriteTo call into a simulated io.Writer that accepts exactly k bytes and then fails (shape short: the failing Write accepts the bytes up to k and returns the injected error; shape fullerr: it accepts its whole argument and returns the error), or a healthy writer forwarding in chunks; " +
+		rule: "one evaluation = one (*ir.Module).WriteTo call into a simulated io.Writer that accepts exactly k bytes and then fails (shape short: the failing Write accepts the bytes up to k and returns the injected error; shape fullerr: it accepts its whole argument and returns the error), or a healthy writer forwarding in chunks; the writer is a plain io.Writer or also an io.StringWriter / io.ByteWriter / io.ReaderFrom; calls come in episodes (eight failing writes at consecutive offsets and one healthy write on the same module object); a seeded concurrent phase runs 2-3 WriteTo calls on different modules as scheduler tasks, each into its own writer; " +
 			"oracle: bytes delivered are a prefix of the twin's String() of exactly the accepted length, returned n equals the accepted byte count, returned err is the injected error (identity), no Write call follows the failing one; without a fault bytes == String(), n == len, err == nil. " +
 			"distinct_nontrivial counts distinct (module, start state, shape, k, chunk) tuples; every offset k in [0, len(String())] is enumerated for the modules listed under counters",
 		simulated:              []string{"io.Writer argument of WriteTo (failure offset, failure shape, chunking, error identity)"},
@@ -68,7 +68,8 @@ func init() {
 		id:    "C13",
 		level: "exploration",
 		rule: "one evaluation = one simulated run: 2-4 tasks, in one run of eight a crowd of 8-16 (real goroutines released one at a time by the seeded scheduler at instrumented statements, lock/unlock edges, channel operations) print the same module/function/block (never-printed start) or any mix of receivers (already-printed start) of a parsed corpus module or a generated constructed module (a third of those with instructions built as struct literals, Typ unset); goroutines, channels, selects, wait groups, condition variables, pools, sleeps and GOMAXPROCS queries of the code under test itself are run by the same scheduler; " +
-			"oracle: no Go race-detector report between two tasks, every returned text equals the sequential text of the same call on an identically built twin, no panic, no deadlock, step cap not reached. " +
+			"one printer in a sixth of the runs writes into a writer that stalls until the other printers are done; " +
+			"oracle: no Go race-detector report between two tasks, every returned text equals the sequential text of the same call on an identically built twin, no panic, no deadlock, step cap not reached, and after the run the module and the twin, extended the same way and printed sequentially, still agree. " +
 			"distinct_nontrivial counts distinct (module, start state, hash of the sequence of (from task, to task, statement site) context switches) among runs with at least one context switch",
 		simulated:   []string{"goroutine scheduling of the caller tasks and of goroutines the code under test starts (statement granularity, seeded)", "Lock/Unlock of Module.mu and Func.mu (simulated blocking over the real TryLock/Unlock); RWMutex, WaitGroup, Once, Cond models", "channels, select, close, range over channel (rendezvous protocol over the real channel), time.Sleep (simulated time), runtime.Gosched", "runtime.GOMAXPROCS(0)/NumCPU() (tape value 1..64)", "sync.Pool (deterministic LIFO with simulated GC drops); sync.Pool.Put of uninstrumented code in race builds (always drops; removes unseeded randomness and masking happens-before edges)", "map iteration order, and whether keys created or re-created during a range are produced"},
 		assumptions: []string{"a context switch cannot split a single statement; the race detector compensates for data races (it needs both accesses to happen, not to collide), text comparison does not", "from a never-printed state all tasks print the same receiver, as the property promises; mixed receivers only from the already-printed state", "sampling: a clean batch is evidence, not proof"},
@@ -132,7 +133,7 @@ func init() {
 		id:    "C12",
 		level: "exploration",
 		rule: "one evaluation = one simulated run: a corpus text (accepted or rejected) parsed through a tape-chosen entry point (ParseString, ParseBytes with the buffer overwritten afterwards, Parse over a simulated chunking/failing reader, ParseFile of a fresh file, of a pipe through /proc/self/fd, and of a path that was parsed a moment ago and now holds other bytes of the same size and mtime) with every map-range visit of the translator and printer iterated in a tape-chosen order, the clock simulated, after tape-chosen prior activity (other parses and prints, an earlier module of the same text scribbled over, heap perturbation), sequentially (plain build) or as 2-4 concurrent parse tasks under the seeded scheduler (race build), followed by a canary parse; " +
-			"oracle: accepted <=> accepted in the reference, String() byte-identical and structural digest (pointer-numbered reflection walk fixing field contents and sharing) identical to the reference computed in another process with canonical order, failing reader gives (nil, err), no race report between parse tasks, no package-level shared object modified. " +
+			"oracle: accepted <=> accepted in the reference, String() byte-identical and structural digest (pointer-numbered reflection walk fixing field contents and sharing) identical to the reference computed in another process with canonical order, failing reader gives (nil, err), no race report between parse tasks, no package-level shared object modified, and no object (package-level singletons excepted) shared between the returned module and the modules earlier or concurrent parses of the run returned. " +
 			"distinct_nontrivial counts distinct (targets, entry points, hash of all applied map orders, hash of all context switches) among runs with a non-canonical map order or a context switch",
 		simulated:   []string{"Go map iteration order at every map range of asm/, ir/, internal/ (canonical order + tape-chosen permutation; keys created or re-created during a range produced or skipped by the tape)", "goroutine scheduling of concurrent parse tasks and of goroutines the translator starts (channels, select, wait groups, pools modelled)", "the file behind ParseFile (regular file, pipe, stat-identical overwrite)", "wall clock (time.Now/time.Since)", "io.Reader argument of asm.Parse (chunking, zero reads, EOF shape, failure offset)", "prior activity and heap state of the process"},
 		assumptions: []string{"which error message a rejected input produces is not compared (with several errors the first one reached legitimately depends on translation order); only accepted/rejected is", "llir/ll (lexer, parser, AST) runs uninstrumented: it has no maps, goroutines or package-level mutable state", "sampling: a clean batch is evidence, not proof"},
